@@ -134,19 +134,19 @@ Definition P_resmod_ex (q : req) (E : list event) : Prop :=
   E = [] \/
   exists r c s L tl, E = ReqMod r c s L :: tl /\
     count is_resmod tl = (if is_qhijack q then 0 else 1) /\
-    (forall r' sm c' s' st w L', In (ResMod r' sm c' s' st w L') tl -> sm = true /\ c' = c /\ s' = s) /\
+    (forall r' sm c' s' st w qw L', In (ResMod r' sm c' s' st w qw L') tl -> sm = true /\ c' = c /\ s' = s) /\
     NCAR tl.
 
 Lemma resmod_wf_iff c s tl :
   forallb (resmod_wf c s) tl = true <->
-  (forall r' sm c' s' st w L', In (ResMod r' sm c' s' st w L') tl -> sm = true /\ c' = c /\ s' = s).
+  (forall r' sm c' s' st w qw L', In (ResMod r' sm c' s' st w qw L') tl -> sm = true /\ c' = c /\ s' = s).
 Proof.
   rewrite forallb_forall. split.
-  - intros H r' sm c' s' st w L' Hin. specialize (H _ Hin). cbn in H.
+  - intros H r' sm c' s' st w qw L' Hin. specialize (H _ Hin). cbn in H.
     apply andb_true_iff in H. destruct H as [H H3]. apply andb_true_iff in H. destruct H as [H1 H2].
     apply Nat.eqb_eq in H2, H3. auto.
   - intros H e Hin. destruct e; try reflexivity. cbn.
-    destruct (H _ _ _ _ _ _ _ Hin) as [-> [-> ->]]. rewrite !Nat.eqb_refl. reflexivity.
+    destruct (H _ _ _ _ _ _ _ _ Hin) as [-> [-> ->]]. rewrite !Nat.eqb_refl. reflexivity.
 Qed.
 
 Lemma cl_resmod_ex_iff q E : cl_resmod_ex q E = true <-> P_resmod_ex q E.
@@ -165,7 +165,7 @@ Definition P_linked (T : list event) : Prop :=
   forall e, In e T ->
     match e with
     | ReqMod r _ _ L => L = [r]
-    | ResMod r _ _ _ _ _ L => L = [r]
+    | ResMod r _ _ _ _ _ _ L => L = [r]
     | _ => True
     end.
 
@@ -180,7 +180,7 @@ Definition P_session (k : nat) (T : list event) : Prop :=
   forall e, In e T ->
     match e with
     | ReqMod _ _ s _ => s = k
-    | ResMod _ _ _ s _ _ _ => s = k
+    | ResMod _ _ _ s _ _ _ _ => s = k
     | _ => True
     end.
 
@@ -210,23 +210,27 @@ Definition P_error_ex (q : req) (E : list event) : Prop :=
   ((forall r st w cl m, In (Write r st w cl m) E ->
       exists st' w', find_resmod E = Some (st', w') /\ st = st' /\ w = w' + b2n (is_serr q) /\ m = 1) /\
    (forall r sm w m, In (Upstream r sm w m) E -> w = b2n (is_qerr q)) /\
+   (forall r sm c s st w qw L, In (ResMod r sm c s st w qw L) E -> qw = b2n (is_qerr q)) /\
    count is_write E = (if is_qhijack q || is_shijack q then 0 else 1)).
 
 Lemma write_wf_iff q o E :
   forallb (write_wf q o) E = true <->
   ((forall r st w cl m, In (Write r st w cl m) E ->
       exists st' w', o = Some (st', w') /\ st = st' /\ w = w' + b2n (is_serr q) /\ m = 1) /\
-   (forall r sm w m, In (Upstream r sm w m) E -> w = b2n (is_qerr q))).
+   (forall r sm w m, In (Upstream r sm w m) E -> w = b2n (is_qerr q)) /\
+   (forall r sm c s st w qw L, In (ResMod r sm c s st w qw L) E -> qw = b2n (is_qerr q))).
 Proof.
   rewrite forallb_forall. split.
-  - intros H. split.
+  - intros H. split; [|split].
     + intros r st w cl m Hin. specialize (H _ Hin). cbn in H.
       destruct o as [[st' w']|]; [|discriminate H].
       apply andb_true_iff in H. destruct H as [H H3]. apply andb_true_iff in H. destruct H as [H1 H2].
       apply Nat.eqb_eq in H1, H2, H3. eauto 6.
     + intros r sm w m Hin. specialize (H _ Hin). cbn in H. apply Nat.eqb_eq in H. exact H.
-  - intros [H1 H2] e Hin. destruct e; try reflexivity; cbn.
+    + intros r sm c s st w qw L Hin. specialize (H _ Hin). cbn in H. apply Nat.eqb_eq in H. exact H.
+  - intros [H1 [H2 H3]] e Hin. destruct e; try reflexivity; cbn.
     + apply Nat.eqb_eq. eapply H2; eauto.
+    + apply Nat.eqb_eq. eapply H3; eauto.
     + destruct (H1 _ _ _ _ _ Hin) as [st' [w' [-> [-> [-> ->]]]]].
       rewrite !Nat.eqb_refl. reflexivity.
 Qed.
@@ -241,10 +245,11 @@ Proof.
                     else Nat.eqb (count is_write E) 1))).
   { subst E. reflexivity. }
   rewrite Hc, andb_true_iff, write_wf_iff. split.
-  - intros [[H1 H2] H3]. right. repeat split; auto.
+  - intros [[H1 [H2 H2']] H3]. right. split; [exact H1|]. split; [exact H2|]. split; [exact H2'|].
     destruct (is_qhijack q || is_shijack q); apply Nat.eqb_eq in H3; exact H3.
-  - intros [H|[H1 [H2 H3]]]; [subst E; discriminate H|].
-    repeat split; auto. rewrite H3. destruct (is_qhijack q || is_shijack q); reflexivity.
+  - intros [H|[H1 [H2 [H2' H3]]]]; [subst E; discriminate H|].
+    split; [split; [exact H1|split; [exact H2|exact H2']]|].
+    rewrite H3. destruct (is_qhijack q || is_shijack q); reflexivity.
 Qed.
 
 (* C7 *)
